@@ -1,7 +1,7 @@
 #!/bin/bash
 # usage: tools/run_all.sh quick|thorough [ids...]   -- runs the checks sequentially, prints one summary line each
 tier=$1; shift
-ids=${@:-C15 C16 C14 C13 C12 C20 C08 C11 C17 C02 C01 C03 C04 C05 C19 C10 C06}
+ids=${@:-C15 C16 C14 C13 C12 C20 C08 C11 C18 C17 C02 C01 C03 C04 C05 C19 C10 C06}
 L=${LOGDIR:-/tmp}; mkdir -p $L
 for id in $ids; do
   s=$(date +%s)
